@@ -75,31 +75,31 @@ func isWrapperOfLive(fn *ssa.Function, live map[*ssa.Function]bool) bool {
 }
 
 var nondetCalls = map[string]string{
-	"time.Now":           "wall clock",
-	"time.Since":         "wall clock",
-	"time.Until":         "wall clock",
-	"time.After":         "timer",
-	"time.Sleep":         "timer",
-	"time.NewTimer":      "timer",
-	"time.Tick":          "timer",
-	"os.Getenv":          "environment",
-	"os.Hostname":        "environment",
-	"os.Getpid":          "environment",
-	"runtime.NumCPU":     "machine configuration",
-	"runtime.GOMAXPROCS": "machine configuration",
+	"time.Now":             "wall clock",
+	"time.Since":           "wall clock",
+	"time.Until":           "wall clock",
+	"time.After":           "timer",
+	"time.Sleep":           "timer",
+	"time.NewTimer":        "timer",
+	"time.Tick":            "timer",
+	"os.Getenv":            "environment",
+	"os.Hostname":          "environment",
+	"os.Getpid":            "environment",
+	"runtime.NumCPU":       "machine configuration",
+	"runtime.GOMAXPROCS":   "machine configuration",
 	"runtime.NumGoroutine": "scheduler",
 }
 
 // sourceExceptions: function → reason (confirmed by reading; one line each).
 var sourceExceptions = map[string]string{
-	"(*coreV2/minter.Blockchain).BeginBlock|time.Now":      "argument of StatisticData().PushStartBlock only (observability); never stored in state",
-	"(*coreV2/minter.Blockchain).EndBlock$1|time.Now":      "deferred PushEndBlock statistics only",
-	"(*coreV2/minter.Blockchain).Commit|time.After":        "shutdown path after `stopped`: waits for the snapshot goroutine and exits the process; no state is touched",
-	"(*coreV2/minter.Blockchain).Commit|go":                "snapshot goroutine spawned after the state commit; reads the committed version only, AppDB writes wait on the WaitGroup (C29.wg)",
-	"(*coreV2/minter.Blockchain).Commit|select":            "shutdown path after `stopped` only",
-	"(*coreV2/minter.Blockchain).stop|go":                  "asynchronous tmNode.Stop() on halt; the node is stopping",
-	"(*coreV2/minter.Blockchain).checkStop|select":         "non-blocking poll of the stop context after commit; only decides whether to stop",
-	"(*coreV2/appdb.AppDB).Snapshot|go":                    "chunk writer of an already-read snapshot; reads the immutable committed version",
+	"(*coreV2/minter.Blockchain).BeginBlock|time.Now": "argument of StatisticData().PushStartBlock only (observability); never stored in state",
+	"(*coreV2/minter.Blockchain).EndBlock$1|time.Now": "deferred PushEndBlock statistics only",
+	"(*coreV2/minter.Blockchain).Commit|time.After":   "shutdown path after `stopped`: waits for the snapshot goroutine and exits the process; no state is touched",
+	"(*coreV2/minter.Blockchain).Commit|go":           "snapshot goroutine spawned after the state commit; reads the committed version only, AppDB writes wait on the WaitGroup (C29.wg)",
+	"(*coreV2/minter.Blockchain).Commit|select":       "shutdown path after `stopped` only",
+	"(*coreV2/minter.Blockchain).stop|go":             "asynchronous tmNode.Stop() on halt; the node is stopping",
+	"(*coreV2/minter.Blockchain).checkStop|select":    "non-blocking poll of the stop context after commit; only decides whether to stop",
+	"(*coreV2/appdb.AppDB).Snapshot|go":               "chunk writer of an already-read snapshot; reads the immutable committed version",
 }
 
 func runC08(c *core.Ctx) {
